@@ -410,6 +410,9 @@ bool StepExtended(ScriptExecutionEnvironment& env, CScript::const_iterator& pc, 
             CScriptNum num1(vch1, env.fRequireMinimal, 5);
             CScriptNum num2(vch2, env.fRequireMinimal, 5);
             if ((env.opcode == OP_DIV || env.opcode == OP_MOD) && num2 == 0) return set_error(serror, SCRIPT_ERR_UNKNOWN_ERROR);
+            // shifting by a negative count or by the width of the type (or a negative value left) is undefined in C++
+            if ((env.opcode == OP_LSHIFT || env.opcode == OP_RSHIFT) && (num2 < 0 || num2 > 62)) return set_error(serror, SCRIPT_ERR_UNKNOWN_ERROR);
+            if (env.opcode == OP_LSHIFT && num1 < 0) return set_error(serror, SCRIPT_ERR_UNKNOWN_ERROR);
             switch (env.opcode) {
             case OP_MUL: num1 = num1 * num2; break;
             case OP_DIV: num1 = num1 / num2; break;
